@@ -297,7 +297,7 @@ class CreditControlRequest(CreditControl):
     access_network_charging_address: bytes
     access_network_charging_identifier_gx: bytes
     an_gw_address: bytes
-    event_trigger: int
+    event_trigger: list[int]
 
     avp_def: AvpGenType = (
         AvpGenDef("session_id", AVP_SESSION_ID, is_required=True),
@@ -358,6 +358,7 @@ class CreditControlRequest(CreditControl):
         self.header.is_proxyable = True
 
         setattr(self, "auth_application_id", 4)
+        setattr(self, "framed_ipv6_prefix", [])
         setattr(self, "subscription_id", [])
         setattr(self, "used_service_unit", [])
         setattr(self, "multiple_services_credit_control", [])
